@@ -34,9 +34,12 @@ type verifyCall struct {
 }
 
 type stubClient struct {
-	name  string // chain name it is registered under
-	ctype string
-	calls []verifyCall
+	name          string // chain name it is registered under
+	ctype         string
+	calls         []verifyCall
+	checkMsgCalls int
+	checkMsgOK    bool
+	checkedMsg    sdk.Msg
 }
 
 func (c *stubClient) Reset()                           {}
@@ -55,7 +58,15 @@ func (c *stubClient) Status(sdk.Context, sdk.KVStore, codec.BinaryCodec) exporte
 	return exported.Active
 }
 func (c *stubClient) ExportMetadata(sdk.KVStore) []exported.GenesisMetadata { return nil }
-func (c *stubClient) CheckMsg(sdk.Msg) error                                { return nil }
+func (c *stubClient) CheckMsg(m sdk.Msg) error {
+	c.checkMsgCalls++
+	c.checkedMsg = m
+	c.checkMsgOK = rt.Bool("checkmsg-accepts")
+	if !c.checkMsgOK {
+		return errVerify
+	}
+	return nil
+}
 func (c *stubClient) CheckHeaderAndUpdateState(sdk.Context, codec.BinaryCodec, sdk.KVStore, exported.Header) (exported.ClientState, exported.ConsensusState, error) {
 	return nil, nil, nil
 }
@@ -169,6 +180,7 @@ type evmCall struct {
 
 type stubEVM struct {
 	key       sdk.StoreKey
+	rets      [][]byte
 	calls     []evmCall
 	hookCalls int
 	ncall     uint64
@@ -190,6 +202,7 @@ func (e *stubEVM) ApplyMessage(ctx sdk.Context, msg core.Message, tracer vm.EVML
 	vmOK := !rt.Bool("vm-reverts")
 	e.calls = append(e.calls, evmCall{from: msg.From(), to: msg.To(), data: msg.Data(), commit: commit, vmOK: vmOK})
 	res := &evmtypes.MsgEthereumTxResponse{Ret: rt.Bytes("evm-ret")}
+	e.rets = append(e.rets, res.Ret)
 	if !vmOK {
 		res.VmError = "execution reverted"
 		return res, nil
